@@ -259,13 +259,29 @@ func ReadPatchString(s string) (Diff, error) {
 			i := len(diff) - 1
 			if diff[i].Path.JsonNode().Equals(e.Path.JsonNode()) {
 				diff[i].Remove = append(diff[i].Remove, e.Remove...)
-				// Must be done in reverse order
-				diff[i].Add = append(e.Add, diff[i].Add...)
+				if isAppendPath(e.Path) {
+					// Appending to the end of the array
+					// keeps the order of the operations.
+					diff[i].Add = append(diff[i].Add, e.Add...)
+				} else {
+					// Must be done in reverse order
+					diff[i].Add = append(e.Add, diff[i].Add...)
+				}
 			} else {
 				diff = append(diff, e)
 			}
 		}
 	}
+}
+
+// isAppendPath is true for a path ending in the "-" (-1) index which
+// refers to the position after the last element of an array.
+func isAppendPath(p Path) bool {
+	if len(p) == 0 {
+		return false
+	}
+	i, ok := p[len(p)-1].(PathIndex)
+	return ok && i == -1
 }
 
 // setPatchDiffElementContext detects before and/or after context and
